@@ -404,4 +404,8 @@ def maxExecutions (idempotent : Bool) (spAttempts : Nat) : Nat :=
 
 def batchIdempotent (entries : List Bool) : Bool := entries.all id
 
+/-- `IsIdempotent()` of a `*Query`: `Session.Query` copies `ClusterConfig.DefaultIdempotence` into the query
+    (`defaultsFromSession`), `Query.Idempotent(v)` overwrites it -/
+def queryIdempotent (sessionDefault : Bool) (stmtLevel : Option Bool) : Bool := stmtLevel.getD sessionDefault
+
 end Executor
